@@ -572,6 +572,12 @@ def gen_c07(rng, sid0, n, decodes):
         scs.append(scenario(sid0 + k, framing, units, steps, auth=auth, decode=rng.choice(decodes),
                             seed=rng.randrange(1000), holes=[{"u": u, "t": 2, "a": 8, "code": 4}] if rng.random() < 0.3 else [],
                             tag="c07-" + kind))
+    # the RTU length boundary: write requests whose byte count puts the frame at, just below and beyond the largest frame
+    for bc in (0xF6, 0xF7, 0xF8, 0xF9, 0xFA, 0xFB, 0xFF):
+        for fc in (15, 16):
+            body = [1, fc, 0, 0, 0, 1, bc] + [rng.randrange(256) for _ in range(bc + 2)]
+            steps = [rx(body), {"op": "reopen"}, rx(rtu(1, req_read(3, 0, 1)))]
+            scs.append(scenario(sid0 + len(scs), "rtu", [1, 2], steps, seed=3, decode=rng.choice(decodes), tag=f"c07-rtu-length-boundary-fc{fc}-{bc:#x}"))
     return scs
 
 
